@@ -1,5 +1,3 @@
-//go:build wip_c09
-
 package props
 
 import (
